@@ -595,8 +595,8 @@ func (w *mgrWorld) use(caller, useIdx int, u usePlan, mustSucceed bool) (ok bool
 		_, _ = bw.WriteBytes(req)
 	}
 	if err := st.Flush(false); err != nil {
-		w.sm.PutBack(st)
 		release()
+		w.sm.PutBack(st)
 		return fail("Flush", err)
 	}
 	// response
@@ -609,8 +609,8 @@ func (w *mgrWorld) use(caller, useIdx int, u usePlan, mustSucceed bool) (ok bool
 		what("read")
 		got, err := st.BufferReader().ReadBytes(want)
 		if err != nil {
-			w.sm.PutBack(st)
 			release()
+			w.sm.PutBack(st)
 			return fail("ReadBytes", err)
 		}
 		for j := range got {
@@ -626,12 +626,13 @@ func (w *mgrWorld) use(caller, useIdx int, u usePlan, mustSucceed bool) (ok bool
 		w.late[st] = true
 	}
 	what("putback")
+	// the caller gives the stream up when it *calls* PutBack: the pool may hand it to somebody else before PutBack returns
+	release()
 	if u.NoPutBack {
 		_ = st.Close()
 	} else {
 		w.sm.PutBack(st)
 	}
-	release()
 	w.okUses++
 	what("")
 	return true
